@@ -124,6 +124,8 @@ def check(run, driver):
         sp = lambda W: (W[:, :1], W[:, 1:2], W[:, 2:])
         run.case("history", [N, kk, float(A1[0, 0])], True)
         reuse_check(run, "geometric-kNN entropy", lambda x: H(x, kk), (A1,), (A2,), {"function": "geometric_knn_entropy", "clause": "purity"})
+        reuse_check(run, "geometric-kNN entropy (sample and distance-matrix buffers both reused)", lambda x, dm: float(E.geometric_knn_entropy(x, dm, kk)),
+                    (A1, cdist(A1, A1)), (A2, cdist(A2, A2)), {"function": "geometric_knn_entropy", "clause": "purity"})
         reuse_check(run, "geometric-kNN CMI", lambda x, y, z: float(C.geometric_knn_conditional_mutual_information(x, y, z, metric="euclidean", k=kk)), sp(A1), sp(A2), {"function": "geometric_knn_conditional_mutual_information", "clause": "purity"})
         reuse_check(run, "geometric-kNN MI", lambda x, y: float(M.geometric_knn_mutual_information(x, y, metric="euclidean", k=kk)), sp(A1)[:2], sp(A2)[:2], {"function": "geometric_knn_mutual_information", "clause": "purity"})
     # ---- MI / CMI as documented signed sums
